@@ -17,5 +17,5 @@ fn prop_by_id(id: &str) -> Option<Box<dyn Prop>> {
 
 fn main() {
     std::env::set_var("SHUTTLE_SILENCE_WARNINGS", "1");
-    vcommon::driver::run_main(prop_by_id, 256 << 20, |_, _| None)
+    vcommon::driver::run_main(prop_by_id, 256 << 20, |cmd, _| (cmd == "exec-one").then(exec::cmd_exec_one))
 }
